@@ -53,6 +53,9 @@ func scenarioX(s common.Scen, root string) ([]runRes, string) {
 func scenario(seed uint64, idx int, tier string, root string, fixed string, enc *string) []runRes {
 	rng := common.NewRng(seed*104729 + uint64(idx))
 	sc := sys.GenScenarioOr(rng, fixed)
+	// everything after the world and the request is drawn from a stream of its own, so that a corpus line (which fixes
+	// the world and the request) keeps its subsets, schedules and faults when the world generator changes
+	rng = common.NewRng(seed*0x9e3779b97f4a7c15 + uint64(idx)*7919 + 12345)
 	if enc != nil {
 		*enc = sc.Encode()
 	}
